@@ -60,8 +60,8 @@ def build(u, nm, ts, tier):
     ops.append('clone: %s' % ('Some(&|x: &%s| x.clone())' % inst if has('Clone') else 'None'))
     singles = 70000 if tier == 'quick' else 70000
     pairs = 300 if tier == 'quick' else 70000
-    if tier != 'quick' and size == 2 and uid != 'u16':
-        pairs = 300
+    if tier != 'quick' and size == 2 and not (uid == 'u16' and nm == 'd' and ts == 'PartialEq'):
+        pairs = 300      # all 65 536^2 pairs of a two-byte union only once (4.3 G comparisons)
     src += 'pub fn check(r: &mut Rep) {\n    assert_eq!(std::mem::size_of::<%s>(), SIZE);\n' % inst
     src += '    let o = UnionOps { size: SIZE, mk: &mk, bytes: &bytes, name: %s, %s };\n' % ('Some("%s")' % shown if shown else 'None', ', '.join(ops))
     src += '    union_check(r, &o, %d, %d);\n' % (singles, pairs)
@@ -128,5 +128,5 @@ RULE = ('unions with 1..3 fields over {u8, [u8;1], [u8;2], u16, [u8;4], u32, [u8
 def check(v, tier):
     from .common import run_behavioural
     cases = generate(tier)
-    run_behavioural(v, cases, 'C20', nontrivial_min=2, min_nontrivial_ratio=0.7, shard_size=12)
+    run_behavioural(v, cases, 'C20', nontrivial_min=2, min_nontrivial_ratio=0.7, shard_size=12 if tier == 'quick' else 4, run_timeout=3000)
     return v.finish(RULE, {'bounds': {'tier': tier, 'fields': 3, 'max_size': 8}})
